@@ -240,6 +240,7 @@ func genC13(c *Ctx) {
 			}
 		}
 	}
+	c13Handler(c)
 	// invalid N and degenerate arguments
 	for _, n := range []int{0, 4, 5, 60} {
 		c.Emit(fmt.Sprintf("scte 0 180000 90000 %d", n), true)
